@@ -4,7 +4,7 @@ CONSTANT HeadCallers = {2}
 CONSTANT Callers = {1, 2}
 CONSTANT Hdrs = {1, 3}
 CONSTANT MaxRounds = 1
-CONSTANT GetOutcomes = {"valid", "invalid", "notfound", "fail"}
+CONSTANT GetOutcomes = {"valid", "invalid", "notfound", "fail", "fail-dial"}
 CONSTANT HeadOutcomes = {"hdr", "invalid", "multi", "fail"}
 CONSTANT MaxPeerEvents = 1
 CONSTANT HdrHeight <- MCHdrHeight
